@@ -354,6 +354,30 @@ static void sx_free(void *p)
 }
 void *operator new(size_t n) { return sx_alloc(n); }
 void *operator new[](size_t n) { return sx_alloc(n); }
+// Exception objects: the C++ runtime obtains them from malloc, whose addresses depend on what other threads did.
+// Serving them from the throwing thread's arena keeps every address a thread touches a function of its own history.
+// The runtime keeps its bookkeeping header directly in front of the object (128 bytes with this ABI); a generous
+// zeroed 256-byte prefix covers it.
+extern "C" void *__cxa_allocate_exception(size_t thrown) noexcept
+{
+    const size_t HDR = 256;
+    char *p;
+    try {
+        p = (char *)sx_alloc(thrown + HDR);
+    } catch (...) {
+        abort();
+    }
+    memset(p, 0, thrown + HDR);
+    return p + HDR;
+}
+extern "C" void __cxa_free_exception(void *obj) noexcept
+{
+    if (!obj) return;
+    char *p = (char *)obj - 256;
+    for (int k = 0; k < sx::MAXT; ++k)
+        if (sx::g_thr[k].arena && p >= sx::g_thr[k].arena && p < sx::g_thr[k].arena + sx::ARENA) return;
+    free(p);
+}
 void operator delete(void *p) noexcept { sx_free(p); }
 void operator delete[](void *p) noexcept { sx_free(p); }
 void operator delete(void *p, size_t) noexcept { sx_free(p); }
